@@ -65,7 +65,9 @@ def dense_py(cx, skel_runs, genome, prefix):
 
 RUNSETS = {"g1": [[], [0], [0, 0]], "g2": [[0], [1], [0, 1], [0, 0, 1]], "g3": [[0, 2], [1], [0, 1, 2]], "g1b": [[0, 0, 0]]}
 
-UNARY = ("to_dict", "sum", "add_scalar", "mul3", "lt_scalar", "eq_scalar", "neg_mask", "roundtrip", "mask_roundtrip")
+UNARY = ("to_dict", "sum", "add_scalar", "mul3", "lt_scalar", "eq_scalar", "neg_mask", "roundtrip", "mask_roundtrip",
+         "rsub_scalar", "rlt_scalar", "float_dense")
+FLOATS = [0.7, 0.1, 2.5]      # values of the float track (record i carries FLOATS[i]): a larger value followed by smaller non-dyadic ones
 BINARY = ("add", "sub", "lt", "and", "or")
 
 
@@ -75,7 +77,8 @@ class Track(Harness):
                  "__array_ufunc__/sum/get_data/_get_intervals_from_data", "GlobalOffset.from_local_interval",
                  "npstructures.RunLengthArray ufuncs")
     bounds = {"quick": "genomes {chr1:4}, {chr1:3,chr2:2}, {chr1:2,chr10:1,chr2:3}; 0-2 bedGraph records with symbolic sorted "
-                       "non-overlapping boundaries and values in [-3,3]; unary ops; binary ops of two single-record tracks",
+                       "non-overlapping boundaries and values in [-3,3]; unary ops incl. a scalar as the LEFT operand (k - t, k < t); the same "
+                       "records with the double values 0.7, 0.1, 2.5 expanded exactly; binary ops of two single-record tracks",
               "thorough": "up to 3 records per track, a 6-base chromosome, binary ops of tracks with 1-2 records each on all genomes"}
 
     def skeletons(self, tier, seed):
@@ -84,7 +87,7 @@ class Track(Harness):
             for g, runsets in (("g1", [[], [0], [0, 0]]), ("g2", [[1], [0, 1]]), ("g3", [[0, 2]])):
                 for runs in runsets:
                     for op in UNARY:
-                        if len(runs) == 2 and g != "g1" and op in ("mul3", "eq_scalar", "add_scalar", "lt_scalar"):
+                        if len(runs) == 2 and g != "g1" and op in ("mul3", "eq_scalar", "add_scalar", "lt_scalar", "rlt_scalar"):
                             continue
                         out.append(dict(genome=g, a=runs, b=None, op=op))
             for g, ra, rb in (("g1", [0], [0]), ("g2", [0], [1]), ("g2", [1], [1])):
@@ -109,7 +112,7 @@ class Track(Harness):
         declare_track(V, skel["a"], sizes, "a")
         if skel["b"] is not None:
             declare_track(V, skel["b"], sizes, "b")
-        if skel["op"] in ("add_scalar", "lt_scalar", "eq_scalar"):
+        if skel["op"] in ("add_scalar", "lt_scalar", "eq_scalar", "rsub_scalar", "rlt_scalar"):
             V.int("k", -3, 3)
 
     def call(self, skel, x, ctx):
@@ -135,6 +138,22 @@ class Track(Harness):
                      **{"and": lambda: (A > 0) & (B > 0), "or": lambda: (A > 0) | (B > 0)})[op]()
             return dict(dense=dd(R), a=dd(A), b=dd(B))
         k = x.get("k")
+        if op == "float_dense":
+            # the same records with float values (concrete, see FLOATS): the dense expansion holds exactly these doubles
+            import bionumpy as bnp
+            from bionumpy.datatypes import BedGraph
+            from bionumpy.genomic_data.genomic_track import GenomicArray
+            names, n = list(genome), len(skel["a"])
+            cz = (lambda v: v) if ctx.mode == "plain" else __import__("symnp").ENGINE.concretize
+            # the run boundaries are decided per path (the bit patterns of doubles are not given a symbolic meaning)
+            bg = BedGraph([names[c] for c in skel["a"]], ctx.arr([cz(x[f"as{i}"]) for i in range(n)], "int64"),
+                          ctx.arr([cz(x[f"ae{i}"]) for i in range(n)], "int64"), np.array(FLOATS[:n], dtype=float))
+            Fl = GenomicArray.from_bedgraph(bg, bnp.Genome.from_dict(dict(genome))._genome_context)
+            return dict(fdense={kk: [v for v in ctx.lst(vv)] for kk, vv in Fl.to_dict().items()})
+        if op == "rsub_scalar":
+            return dict(dense=dd(ctx.np.subtract(k, A)), a=dd(A))          # k - A: scalar as the LEFT operand
+        if op == "rlt_scalar":
+            return dict(dense=dd(ctx.np.less(k, A)), a=dd(A))              # k < A
         R = dict(add_scalar=lambda: A + k, mul3=lambda: A * 3, lt_scalar=lambda: A < k, eq_scalar=lambda: A == k,
                  neg_mask=lambda: ~(A > 0))[op]()
         return dict(dense=dd(R), a=dd(A))
@@ -164,6 +183,25 @@ class Track(Harness):
                 for p in range(genome[nm]):
                     conj.append((TB(got[nm][p]) == exp[nm][p]) if boolean else (TI(got[nm][p]) == exp[nm][p]))
             return True
+        if op == "float_dense":
+            got = out["fdense"]
+            if list(got) != names:
+                return False
+            from symnp.core import T
+            for ci, nm in enumerate(names):
+                if len(got[nm]) != genome[nm]:
+                    return False
+                for p in range(genome[nm]):
+                    # which record covers p is symbolic; the value must be exactly that record's double (0.0 in gaps)
+                    for val in set(FLOATS[:len(skel["a"])] + [0.0]):
+                        covers = z_or([z3.And(x[f"as{i}"].t <= p, p < x[f"ae{i}"].t) for i, c in enumerate(skel["a"]) if c == ci and FLOATS[i] == val]) \
+                            if val != 0.0 else z3.Not(z_or([z3.And(x[f"as{i}"].t <= p, p < x[f"ae{i}"].t) for i, c in enumerate(skel["a"]) if c == ci]))
+                        g = got[nm][p]
+                        same = (float(g) == val) if isinstance(g, (int, float)) else None
+                        if same is None:
+                            return False          # a symbolic value where a concrete double is expected
+                        conj.append(z3.Implies(covers, z3.BoolVal(same)))
+            return z_and(conj)
         if op == "sum":
             tot = sum([t for nm in names for t in a[nm]], z3.IntVal(0))
             return z3.And(TI(out["v"]) == tot, TI(out["v2"]) == tot)
@@ -203,6 +241,7 @@ class Track(Harness):
               "lt": (lambda u, v: u < v, True), "and": (lambda u, v: z3.And(u > 0, v > 0), True),
               "or": (lambda u, v: z3.Or(u > 0, v > 0), True), "add_scalar": (lambda u, v: u + k, False),
               "mul3": (lambda u, v: u * 3, False), "lt_scalar": (lambda u, v: u < k, True),
+              "rsub_scalar": (lambda u, v: k - u, False), "rlt_scalar": (lambda u, v: k < u, True),
               "eq_scalar": (lambda u, v: u == k, True), "neg_mask": (lambda u, v: z3.Not(u > 0), True)}[op]
         exp = {nm: [fn[0](a[nm][p], b[nm][p] if b is not None else None) for p in range(genome[nm])] for nm in names}
         if not cmp_dense(out["dense"], exp, fn[1]):
@@ -219,6 +258,17 @@ class Track(Harness):
         op, k = skel["op"], cx.get("k")
         recs = lambda pre, runs: [(names[c], cx[f"{pre}s{i}"], cx[f"{pre}e{i}"], cx[f"{pre}v{i}"]) for i, c in enumerate(runs)]
         desc = f"track a={recs('a', skel['a'])}" + (f" b={recs('b', skel['b'])}" if b is not None else "") + f" genome={genome}"
+        if op == "float_dense":
+            exp = {}
+            for ci, nm in enumerate(names):
+                col = [0.0] * genome[nm]
+                for i, c in enumerate(skel["a"]):
+                    if c == ci:
+                        for p in range(cx[f"as{i}"], cx[f"ae{i}"]):
+                            col[p] = FLOATS[i]
+                exp[nm] = col
+            got = {nm: [float(v) for v in col] for nm, col in cout["fdense"].items()}
+            return None if got == exp else f"float track with values {FLOATS[:len(skel['a'])]} on {desc}: dense arrays {got}, expected exactly {exp}"
         if op == "sum":
             tot = sum(sum(v) for v in a.values())
             return None if (cout["v"], cout["v2"]) == (tot, tot) else f"sum of {desc} = {cout}, expected {tot}"
@@ -242,6 +292,7 @@ class Track(Harness):
         f = {"to_dict": lambda u, v: u, "add": lambda u, v: u + v, "sub": lambda u, v: u - v, "lt": lambda u, v: u < v,
              "and": lambda u, v: u > 0 and v > 0, "or": lambda u, v: u > 0 or v > 0, "add_scalar": lambda u, v: u + k,
              "mul3": lambda u, v: u * 3, "lt_scalar": lambda u, v: u < k, "eq_scalar": lambda u, v: u == k,
+             "rsub_scalar": lambda u, v: k - u, "rlt_scalar": lambda u, v: k < u,
              "neg_mask": lambda u, v: not (u > 0)}[op]
         exp = {nm: [f(a[nm][p], b[nm][p] if b is not None else None) for p in range(genome[nm])] for nm in names}
         got = {nm: [type(exp[nm][p])(v) for p, v in enumerate(cout["dense"][nm])] if len(cout["dense"][nm]) == genome[nm] else cout["dense"][nm]
